@@ -324,3 +324,43 @@ def chain_program(rnd, n, name):
             ins.append(Un(rnd.choice(['abs', 'neg', 'squared']), prev))
     ins.append(Gen('Out', 2, [C(0), R(1, 0), R(len(ins), 0)], 0))
     return Prog(name, [], ins)
+
+
+SINKS = ['Out', 'ReplaceOut', 'OffsetOut', 'LocalOut', 'XOut']
+
+
+def array_sink_program(rnd, name):
+    """an audio rate output unit of a random class fed by a channel ARRAY (2..7 channels, flat or nested) in which
+    0..3 positions - first, middle, last, several - hold something that is not audio rate: a control or scalar rate
+    unit, an operator result at control rate, a control parameter, a non-zero constant; literal zeros (which output
+    units turn into silence) and other valid output units are sprinkled in.  Whether it must be refused is the
+    spec's business (MustRaise)."""
+    ctl = [Ctl('kc', 1, 3), Ctl('ac', 2, 1), Ctl('ic', 0, 2)]
+    ins = [Gen('SinOsc', 2, [C(440), C(0)]), Gen('WhiteNoise', 2, []), Gen('LFNoise0', 1, [C(2)]),
+           Gen('Rand', 0, [C(0), C(1)]), Gen('In', 2, [C(4)], 2),
+           Bin('*', R(1), R(2)), Bin('+', R(3), Pm(1)), Un('abs', R(1)), Gen('Pan2', 2, [R(2), C(0), C(1)], 2)]
+    good = [R(1), R(2), R(5, 0), R(5, 1), R(6), R(8), R(9, 0), R(9, 1), Pm(2)]
+    bad = [R(3), R(4), R(7), Pm(1), Pm(3), C(2), C(-1), C(440)]
+    k = rnd.randint(2, 7)
+    chans = [rnd.choice(good) for _ in range(k)]
+    nbad = rnd.choice([0, 1, 1, 1, 2, 3])
+    pos = set()
+    for _ in range(nbad):
+        pos.add(rnd.choice([0, k - 1, k // 2, rnd.randrange(k)]))
+    for p_ in pos:
+        chans[p_] = rnd.choice(bad)
+    for j in range(k):
+        if j not in pos and rnd.random() < 0.1:
+            chans[j] = C(0)
+    cls = rnd.choice(SINKS)
+    fixed = {'LocalOut': [], 'XOut': [rnd.choice([C(0), Pm(1)]), C(1)]}.get(cls, [rnd.choice([C(0), C(3), Pm(1)])])
+    if rnd.random() < 0.3:
+        ins.append(Gen('Out', 1, [C(1), R(3)], 0))          # a valid control rate output first
+    shape = rnd.choice(['flat', 'flat', 'head', 'tail', 'deep']) if k >= 3 else 'flat'
+    if shape == 'flat':
+        ins.append(Gen(cls, 2, fixed + chans, 0))
+    else:
+        ins.append(dict(op='sinkn', cls=cls, sel=shape, rate=2, nout=0, a=fixed + chans))
+    if rnd.random() < 0.3:
+        ins.append(Gen('Out', 2, [C(0), R(1)], 0))
+    return Prog(name, ctl, ins)
